@@ -12,7 +12,7 @@ import sys
 import time
 import traceback
 
-from . import implrun, oracle, proto
+from . import cover, implrun, oracle, proto
 
 VERIF = oracle.VERIF
 COQ = oracle.COQ
@@ -377,6 +377,19 @@ def main(argv):
                                          "theorem / correspondence no longer checks"})
             violations.append((path, " no-failing-input-found"))
 
+    # line coverage of the anchored files by a sample of the campaign (evidence only)
+    coverage_info = {}
+    cov_files = getattr(mod, "COVER_FILES", None)
+    if cov_files and results and not replay and os.environ.get("VERIF_NO_COVERAGE") != "1":
+        try:
+            step = max(1, len(results) // (250 if tier == "quick" else 1500))
+            sample = [c for k, (c, r, m, f) in enumerate(results) if k % step == 0 and not f]
+            coverage_info = cover.measure(mod.impl, sample, cov_files,
+                                          timeout_s=getattr(mod, "COVER_TIMEOUT_S", 90 if tier == "quick" else 600))
+            coverage_info = {"sample_size": len(sample), "files": coverage_info}
+        except Exception as e:  # evidence only: never affects the verdict
+            coverage_info = {"error": repr(e)}
+
     # ---- 3. evidence ---------------------------------------------------------------------------
     wall = round(time.time() - t_start, 2)
     obligations = len(thms)
@@ -404,6 +417,7 @@ def main(argv):
             "exhaustive_ranges": getattr(mod, "EXHAUSTIVE", {}).get(tier, "") if hasattr(mod, "EXHAUSTIVE") else "",
             "timing": dict(timing, build_s=build_info.get("build_s")),
             "known_findings_hit": sorted(known_hits),
+            "impl_line_coverage": coverage_info,
             "concrete_failures": len(concrete_failures),
         },
         "assumptions": list(getattr(mod, "ASSUMPTIONS", [])),
